@@ -203,6 +203,16 @@ func sequence(rng *rand.Rand, ops int, disk bool, enc *json.Encoder) error {
 				}
 			}
 		default:
+			// rollback to an earlier (or the current) version: versions above it are pruned, pending writes dropped
+			if v := st.Version(); len(stack) == 1 && v >= 1 && rng.Intn(3) == 0 {
+				if cp != nil {
+					cp.Discard()
+					cp = nil
+				}
+				target := 1 + uint64(rng.Intn(int(v)))
+				emit(Line{Op: "rollback", Ver: target, Err: errs(st.Rollback(target))})
+				break
+			}
 			// maintenance without logical effect: memtable flush, full compaction (changes the sstable layout the iterators see)
 			var e error
 			if rng.Intn(2) == 0 {
